@@ -350,7 +350,8 @@ type Unit struct {
 	Members []int                  `json:"members,omitempty"` // atom ids (map: sorted by column name; struct: schema order)
 	// Via: the Go value that carries the unit to gorm when it is not the default one.
 	//  map:    "" map[string]interface{} | colarg Where("col", v) | mapss map[string]string |
-	//          mapii map[interface{}]interface{} | pk Where(k) | pkstr Where("k") | pkslice Where([]int64)
+	//          mapii map[interface{}]interface{} | pk Where(k) | pkstr Where("k") | pkstrsign Where("+k") |
+	//          pkslice Where([]int64)
 	//  struct: "" | sel (the members' columns selected by name: zero values count) |
 	//          slice (a slice of structs, Elems = members per element)
 	//  named:  "" map | sqlnamed sql.Named(...) arguments | structarg / structptr a struct (pointer) whose fields are the arguments
@@ -766,6 +767,9 @@ func (u Unit) QueryArgs(db *gorm.DB, byID map[int]Atom) (interface{}, []interfac
 			return byID[u.Members[0]].I, nil
 		case "pkstr":
 			return fmt.Sprint(byID[u.Members[0]].I), nil
+		case "pkstrsign":
+			// a numeric string with an explicit sign is a primary key too
+			return fmt.Sprintf("%+d", byID[u.Members[0]].I), nil
 		case "pkslice":
 			return byID[u.Members[0]].IL, nil
 		case "nilmap":
@@ -1036,7 +1040,7 @@ func (g *Gen) mapUnit(n int) Unit {
 		a := g.ByID[u.Members[0]]
 		switch {
 		case a.Col == "id" && a.Op == "eq":
-			u.Via = lib.Pick(r, []string{"pk", "pk", "pkstr", "colarg"})
+			u.Via = lib.Pick(r, []string{"pk", "pk", "pkstr", "pkstrsign", "colarg"})
 		case a.Col == "id" && a.Op == "in":
 			u.Via = lib.Pick(r, []string{"pkslice", "pkslice", "colarg"})
 		default:
@@ -1353,6 +1357,8 @@ func DiscoverTexts(db *gorm.DB, base func() *gorm.DB, atoms []Atom) (map[int][]s
 			rec(a.NegID(), base().Not(a.I))
 			rec(a.ID, base().Where(fmt.Sprint(a.I)))
 			rec(a.NegID(), base().Not(fmt.Sprint(a.I)))
+			rec(a.ID, base().Where(fmt.Sprintf("%+d", a.I)))
+			rec(a.NegID(), base().Not(fmt.Sprintf("%+d", a.I)))
 		}
 		if a.Col == "id" && a.Op == "in" {
 			rec(a.ID, base().Where(a.IL))
@@ -1392,6 +1398,9 @@ func GenAtoms(r *lib.Rng, names, nicks []string) []Atom {
 				continue
 			}
 			a.Col, a.Op, a.I = "id", "eq", int64(r.Range(1, 8))
+			if r.Chance(1, 8) {
+				a.I = -int64(r.Range(1, 3)) // a key no row has, with a sign
+			}
 		case 11:
 			if NoIDAtoms {
 				continue
